@@ -49,6 +49,17 @@ def unchanged(label, a, old):
     return out
 
 
+def target_unchanged(label, a, old):
+    """C18 for a refused in-place call: numbers and unit of the target as before (its dtype may
+    have been promoted from integer to the float of the same width: not part of the statement)"""
+    b = N.arr_buf(a)
+    out = [("C01/C18: %s: numbers unchanged by the refused call" % label,
+            True if b.elem is old["elem"] else to_real(b.elem) == to_real(old["elem"]))]
+    if "units" in old:
+        out.append(("C01/C18: %s: unit unchanged by the refused call" % label, a.fields["units"] is old["units"]))
+    return out
+
+
 class _Ufunc(Contract):
     name = "unyt.array.unyt_array.__array_ufunc__"
     properties = ("C01", "C04", "C08", "C16", "C17", "C18")
@@ -59,6 +70,7 @@ class _Ufunc(Contract):
     may_raise = ()
     max_paths = 3000
     callsite_disabled = True
+    out = None                       # None | "o" (a separate unyt array) | "i0" / "i1" (aliases an operand)
 
     # ---------------------------------------------------------------- operands
     def make_operand(self, it, kind, label):
@@ -77,11 +89,41 @@ class _Ufunc(Contract):
     def formals(self, it):
         ops = [self.make_operand(it, k, "i%d" % n) for n, k in enumerate(self.config)]
         self_ = next(o for o in ops if N.is_unyt_array(o))
-        return {"self": self_, "ufunc": ExternalRef("numpy." + self.ufunc), "method": self.method,
-                "inputs": tuple(ops)}
+        f = {"self": self_, "ufunc": ExternalRef("numpy." + self.ufunc), "method": self.method,
+             "inputs": tuple(ops), "target": None}
+        if self.out == "o":
+            f["target"] = N.make_unyt_array(it, "out")
+        elif self.out in ("i0", "i1"):
+            f["target"] = ops[int(self.out[1])]
+        return f
 
     def call_args(self, formals):
         return [formals["self"], formals["ufunc"], formals["method"]] + list(formals["inputs"])
+
+    def call_kwargs(self, formals):
+        if formals["target"] is not None:
+            return {"out": (formals["target"],)}      # NumPy hands out= over as a tuple
+        return {}
+
+    def law_tag(self):
+        """the value law of an out= form is also C18's "exactly the numbers of the copying call" """
+        return "C04/C18" if self.out else "C04"
+
+    def target_index(self):
+        return int(self.out[1]) if self.out in ("i0", "i1") else None
+
+    def out_post(self, it, a, r):
+        """C18: a successful out= call changes only its target, which then holds exactly the
+        numbers and the unit of the returned object (= those of the copying call, stated by
+        the value law over the entry values)"""
+        t = a.target
+        if t is None:
+            return []
+        if not N.is_unyt_array(r):
+            return [("out=: the target receives the result", N.is_array(r) and N.arr_buf(r) is N.arr_buf(t))]
+        return [("out=: the returned object is backed by the target's memory", N.arr_buf(r) is N.arr_buf(t)),
+                ("out=: the target is relabelled with the result's unit",
+                 t.fields["units"] is r.fields["units"])]
 
     def track(self, it, a):
         for n, o in enumerate(a.inputs):
@@ -94,6 +136,11 @@ class _Ufunc(Contract):
                 it.ctx.track("u%d.prefix" % n, S.prefix_of(o.fields["units"]))
 
     def units(self, a):
+        """units of the operands *at entry* (an out= target that aliases an operand is
+        relabelled by the call)"""
+        eu = getattr(self, "_entry_units", None)
+        if eu is not None and eu[0] is a.inputs:
+            return eu[1]
         return [o.fields["units"] if N.is_unyt_array(o) else None for o in a.inputs]
 
     def requires(self, it, a):
@@ -114,17 +161,31 @@ class _Ufunc(Contract):
         return out
 
     def snapshot(self, it, a):
-        return [snapshot_array(o) if N.is_array(o) else None for o in a.inputs]
+        self._entry_units = (a.inputs, [o.fields["units"] if N.is_unyt_array(o) else None
+                                        for o in a.inputs])
+        snaps = [snapshot_array(o) if N.is_array(o) else None for o in a.inputs]
+        if self.out == "o":
+            snaps.append(snapshot_array(a.target))
+        return snaps
 
-    def frames(self, a, old):
+    def frames(self, a, old, raising=False):
         out = []
+        ti = self.target_index()
         for n, (o, s) in enumerate(zip(a.inputs, old)):
-            if s is not None:
+            if s is None:
+                continue
+            if n == ti and not raising:
+                continue                      # the in-place target
+            if n == ti:
+                out += target_unchanged("the out= target (operand %d)" % n, o, s)
+            else:
                 out += unchanged("operand %d" % n, o, s)
+        if self.out == "o" and raising:
+            out += target_unchanged("the out= target", a.target, old[-1])
         return out
 
     def on_raise(self, it, a, old, exc):
-        return self.frames(a, old)
+        return self.frames(a, old, raising=True)
 
     # ---------------------------------------------------------------- shared pieces
     def si(self, it, a, n, old):
@@ -138,9 +199,9 @@ class _Ufunc(Contract):
         return to_real(o)
 
     def dim(self, a, n):
-        o = a.inputs[n]
-        if N.is_unyt_array(o):
-            return S.dim(o.fields["units"])
+        u = self.units(a)[n]
+        if u is not None:
+            return S.dim(u)
         return SDim.one()
 
     kind = None
@@ -276,12 +337,12 @@ class _Additive(_Commensurable):
         si0 = z3.If(z0, z3.RealVal(0), si0)
         si1 = z3.If(z1, z3.RealVal(0), si1)
         law = S.SI(N.arr_elem(r), ru, P) == si0 + self.sign * si1
-        out = [("C04: SI(result) == SI(a) %s SI(b)" % ("+" if self.sign == 1 else "-"),
+        out = [(self.law_tag() + ": SI(result) == SI(a) %s SI(b)" % ("+" if self.sign == 1 else "-"),
                 z3.Implies(self.exact_case(it, a), law)),
                self.label_post(it, a, ru),
                ("C17: the result of a rescaling operation is floating point or complex",
                 z3.Implies(self.rescaled(it, a), z3.Not(N.is_int_kind(N.arr_kind(r)))))]
-        return out + self.frames(a, old) + self.class_post(it, r)
+        return out + self.frames(a, old) + self.class_post(it, r) + self.out_post(it, a, r)
 
     def canary(self, it, a, r, old):
         if not N.is_unyt_array(r):
@@ -309,10 +370,10 @@ class _Homogeneous(_Commensurable):
             it.assume(N.homogeneity_fact(self.ufunc, k, x0, x1))
         z0, z1 = bare_zero(it, a, 0), bare_zero(it, a, 1)
         law = S.SI(N.arr_elem(r), ru, P) == fn(si0, si1)
-        out = [("C04: SI(result) == %s(SI(a), SI(b))" % self.ufunc,
+        out = [(self.law_tag() + ": SI(result) == %s(SI(a), SI(b))" % self.ufunc,
                 z3.Implies(z3.And(self.exact_case(it, a), z3.Not(z0), z3.Not(z1)), law)),
                self.label_post(it, a, ru)]
-        return out + self.frames(a, old) + self.class_post(it, r)
+        return out + self.frames(a, old) + self.class_post(it, r) + self.out_post(it, a, r)
 
     def canary(self, it, a, r, old):
         if not N.is_unyt_array(r) or old[0] is None:
@@ -367,7 +428,7 @@ class _Comparison(_Commensurable):
                               z3.Not(self.either_dimensionless(a)))
             out.append(("C01: == answers all-False and != all-True for different dimensions",
                         z3.Implies(mismatch, elem == (0 if self.ufunc == "equal" else 1))))
-        return out + self.frames(a, old)
+        return out + self.frames(a, old) + self.out_post(it, a, r)
 
     def canary(self, it, a, r, old):
         if N.is_array(r):
@@ -403,13 +464,13 @@ class _Multiplicative(_Ufunc):
         e1 = to_real(old[1]["elem"]) if old[1] is not None else to_real(a.inputs[1])
         guard = z3.BoolVal(True) if sign == 1 else e1 != 0
         d0, d1 = self.dim(a, 0), self.dim(a, 1)
-        out = [("C04: SI(result) == SI(a) %s SI(b)" % ("*" if sign == 1 else "/"),
+        out = [(self.law_tag() + ": SI(result) == SI(a) %s SI(b)" % ("*" if sign == 1 else "/"),
                 z3.Implies(guard, S.SI(N.arr_elem(r), ru, P) == want)),
                ("C04: dimension of the result by dimensional analysis",
                 z3.And(*[to_real(x) == to_real(p) + sign * to_real(q)
                          for x, p, q in zip(S.dim(ru).vec, d0.vec, d1.vec)])),
                ("result unit has no zero-point offset", S.offset(ru) == 0)]
-        return out + self.frames(a, old) + self.class_post(it, r)
+        return out + self.frames(a, old) + self.class_post(it, r) + self.out_post(it, a, r)
 
     def canary(self, it, a, r, old):
         if not N.is_unyt_array(r) or old[0] is None:
@@ -505,7 +566,7 @@ class _Temperature(_Ufunc):
         if p0 and p1:
             out.append(("two different offset scales are never combined",
                         units_equal(it, u0, u1)))
-        return out + self.frames(a, old) + self.class_post(it, r)
+        return out + self.frames(a, old) + self.class_post(it, r) + self.out_post(it, a, r)
 
     def canary(self, it, a, r, old):
         if not N.is_unyt_array(r):
@@ -513,10 +574,17 @@ class _Temperature(_Ufunc):
         return to_real(N.arr_elem(r)) == 12345
 
 
-def _mk(base, ufunc, config, method="__call__", suffix="", **extra):
+def _mk(base, ufunc, config, method="__call__", suffix="", out=None, **extra):
+    if out:
+        suffix += "_out_" + out
     name = "U_%s_%s_%s%s" % (ufunc, method.strip("_"), "".join(config), suffix)
-    d = {"ufunc": ufunc, "config": tuple(config), "method": method,
+    d = {"ufunc": ufunc, "config": tuple(config), "method": method, "out": out,
          "tag": "%s.%s(%s)%s" % (ufunc, method, ",".join(config), suffix)}
+    if out:
+        # NumPy refuses (UFuncTypeError, a TypeError) results that cannot be cast into the
+        # target's dtype; 1-byte integer targets have no float of their width.  A refusal is
+        # allowed; the frame obligations on the raising path are what C18 asks for.
+        d["may_raise"] = tuple(getattr(base, "may_raise", ())) + ("TypeError",)
     d.update(extra)
     cls = type(name, (base,), d)
     cls.__module__ = __name__
@@ -547,3 +615,114 @@ for _n0 in TEMPERATURE_NAMES:
             TEMPERATURE.append(_mk(_Temperature, _uf, ("q", "q"), suffix="_T_%s_%s" % (_n0, _n1),
                                    sign=_sg, names=(_n0, _n1)))
 ALL += TEMPERATURE
+
+
+class _Unary(_Ufunc):
+    """unary ufuncs on a quantity: degree-1 pass-through (negative, absolute, fabs, positive,
+    conj) and powers (square, reciprocal, sqrt, cbrt)"""
+    kind = None
+    power = None                      # None: pass-through; else the exponent
+
+    def requires(self, it, a):
+        from pyvc.unyt_domain import rpow
+        out = _Ufunc.requires(self, it, a)
+        u = self.units(a)[0]
+        s_ = S.scale(u)
+        if self.power == Fraction(1, 2):
+            r_ = rpow(s_, z3.RealVal("1/2"))
+            out.append(("real powers: rpow(s, 1/2) is the positive square root",
+                        z3.And(r_ > 0, r_ * r_ == s_)))
+            e = to_real(N.arr_elem(a.inputs[0]))
+            q = N.ufn("sqrt", 1)(e)
+            out.append(("NumPy: sqrt(x) >= 0 and sqrt(x)**2 == x for x >= 0",
+                        z3.Implies(e >= 0, z3.And(q >= 0, q * q == e))))
+        if self.power == Fraction(1, 3):
+            r_ = rpow(s_, z3.RealVal("1/3"))
+            out.append(("real powers: rpow(s, 1/3)**3 == s", z3.And(r_ > 0, r_ * r_ * r_ == s_)))
+            e = to_real(N.arr_elem(a.inputs[0]))
+            q = N.ufn("cbrt", 1)(e)
+            out.append(("NumPy: cbrt(x)**3 == x", q * q * q == e))
+        return out
+
+    def raises(self, it, a):
+        if self.power is None:
+            return {}
+        u = self.units(a)[0]
+        # logarithmic units refuse powers (Unit.__pow__ / __mul__ contracts)
+        return {"InvalidUnitOperation": is_ref(S.dim(u), "logarithmic")}
+
+    def ensures(self, it, a, r, old):
+        P = it.domain.prefix_table(it)
+        if not N.is_unyt_array(r):
+            return [("result is a unyt object", False)]
+        u = self.units(a)[0]
+        ru = r.fields["units"]
+        x = self.si(it, a, 0, old)
+        y = S.SI(N.arr_elem(r), ru, P)
+        p = self.power
+        if p is None:
+            law = y == N.UNARY_UFUNCS[self.ufunc](x)
+            dims = [to_real(d) for d in S.dim(u).vec]
+        else:
+            dims = [to_real(d) * to_real(p) for d in S.dim(u).vec]
+            e = to_real(old[0]["elem"])
+            if p == 2:
+                law = y == x * x
+            elif p == -1:
+                law = z3.Implies(e != 0, y * x == 1)
+            elif p == Fraction(1, 2):
+                law = z3.Implies(e >= 0, z3.And(y >= 0, y * y == x))
+            else:
+                law = y * y * y == x
+        out = [(self.law_tag() + ": SI(result) == %s(SI(x))" % self.ufunc, law),
+               ("C04: dimension of the result by dimensional analysis",
+                z3.And(*[to_real(g) == w for g, w in zip(S.dim(ru).vec, dims)])),
+               ("result unit has no zero-point offset", S.offset(ru) == 0)]
+        return out + self.frames(a, old) + self.class_post(it, r) + self.out_post(it, a, r)
+
+    def canary(self, it, a, r, old):
+        if not N.is_unyt_array(r):
+            return None
+        return to_real(N.arr_elem(r)) == 12345
+
+
+class _UnaryOffsetRefusal(_Ufunc):
+    """C08/C18: a power (square, sqrt, cbrt, reciprocal) of an offset temperature quantity is
+    refused, and a refused out= call leaves its target untouched"""
+    plain = False
+    properties = ("C08", "C18")
+
+    def requires(self, it, a):
+        out = _Ufunc.requires(self, it, a)
+        u = self.units(a)[0]
+        out.append(("operand is an offset temperature scale", S.offset(u) != 0))
+        return out
+
+    def raises(self, it, a):
+        return {"InvalidUnitOperation": z3.BoolVal(True)}
+
+    def ensures(self, it, a, r, old):
+        return [("C08: an offset-scale quantity is never raised to a power", False)]
+
+    def canary(self, it, a, r, old):
+        return None
+
+
+UNARY = []
+for _uf in UNARY_PASS:
+    for _o in (None, "o", "i0"):
+        UNARY.append(_mk(_Unary, _uf, ("q",), out=_o, power=None, kind=None))
+for _uf, _p in UNARY_POW.items():
+    for _o in (None, "o", "i0"):
+        UNARY.append(_mk(_Unary, _uf, ("q",), out=_o, power=_p, kind=None))
+        UNARY.append(_mk(_UnaryOffsetRefusal, _uf, ("q",), out=_o, suffix="_offset"))
+ALL += UNARY
+
+OUT_VARIANTS = []
+for _uf, _base, _x in (("add", _Additive, {"sign": 1}), ("subtract", _Additive, {"sign": -1}),
+                       ("multiply", _Multiplicative, {}), ("divide", _Multiplicative, {}),
+                       ("maximum", _Homogeneous, {})):
+    for _cfg in (("q", "q"), ("q", "s")):
+        for _o in ("o", "i0") + (("i1",) if _cfg == ("q", "q") else ()):
+            OUT_VARIANTS.append(_mk(_base, _uf, _cfg, out=_o, **_x))
+ALL += OUT_VARIANTS
